@@ -3411,7 +3411,7 @@ func (e *bincEncDriverBytes) writeNilMap() {
 }
 
 func (e *bincEncDriverBytes) writeNilBytes() {
-	e.writeNilOr(bincVdArray<<4 | uint8(0+4))
+	e.writeNilOr(bincVdByteArray<<4 | uint8(0+4))
 }
 
 func (e *bincEncDriverBytes) encBytesLen(c charEncoding, length uint64) {
@@ -7527,7 +7527,7 @@ func (e *bincEncDriverIO) writeNilMap() {
 }
 
 func (e *bincEncDriverIO) writeNilBytes() {
-	e.writeNilOr(bincVdArray<<4 | uint8(0+4))
+	e.writeNilOr(bincVdByteArray<<4 | uint8(0+4))
 }
 
 func (e *bincEncDriverIO) encBytesLen(c charEncoding, length uint64) {
